@@ -192,7 +192,7 @@ fn paren(a: Expr) -> Expr {
     Expr::Paren(Box::new(a))
 }
 fn mcall(o: Expr, name: &str, args: Vec<Expr>) -> Expr {
-    Expr::MethodCall { obj: Box::new(o), name: name.to_string(), args, sugar: CallSugar::Parens }
+    Expr::MethodCall { obj: Box::new(o), name: name.to_string(), types: None, args, sugar: CallSugar::Parens }
 }
 
 struct FnCtx {
